@@ -36,7 +36,7 @@ CLAIMS = {
                 "(every root and child reference resolves, node ids not shared nor reachable twice, no unreferenced tree node, every "
                 "tree reaches every item exactly once), and the index invariant holds again, so the statement iterates. The id "
                 "generator hypothesis is discharged by C13. The executable checker `Check.forestValid` is proved to accept exactly "
-                "such states and is evaluated on EVERY implementation dump; single-thread builds are replayed byte-for-byte "
+                "such states (completeness: C01_checker_*; soundness: CHK_forestValid_sound) and is evaluated on EVERY implementation dump; single-thread builds are replayed byte-for-byte "
                 "through the model, multi-thread builds checked by the predicates.",
         "note": COMMON_NOTE + " Hypotheses: index < 65536, split_after >= 1, n_trees != 0 for the `at least one tree` clause. The recursive "
                 "routines are modelled as pure tree-level functions whose polls are charged afterwards (DESIGN.md section 0).",
@@ -184,7 +184,11 @@ CLAIMS = {
         "text": "Refinement theorems: for every history of add/append/delete/clear over any indexes the model's item store refines the "
                 "abstract map id -> last written vector (presence, bit-exact read-back for f32 metrics, sign pattern for quantised ones, "
                 "ascending iteration, emptiness, deletion result); the implementation is compared with the model after every single "
-                "operation (answers and full decoded dumps) over histories covering all float bit patterns, all metrics, u32-wide ids.",
+                "operation (answers and full decoded dumps) over histories covering all float bit patterns, all metrics, u32-wide ids. "
+                "Over the FULL history grammar (builds and metric changes included) the read answers are proved to be those of an abstract "
+                "map computed over the operations (C05_history; presence with no side condition at all: C05_history_presence), builds of any "
+                "index never change any read answer (C05_build_never_changes_spec), and the same holds inside the writing transaction and "
+                "after commit (C05_history_transactions).",
         "note": COMMON_NOTE + " `Building never changes any of this` is the theorem C05_build_preserves (ArroyProofs/Properties/C05Build.lean) "
                 "when present, and is compared on every build by the dumps.",
         "technique": "Lean 4 refinement proof (induction over histories) + per-operation differential replay against the real crate",
